@@ -11,13 +11,14 @@ EXPLANATION = ("Bounded symbolic execution of the MIR of TopNVoting::winners and
                "every iteration order; because the oracle is a function of the stream as a multiset (up to f32/f64 summation "
                "order and ties), agreement with it for every stream gives order independence. SortVoting: see C02; VisualVoting: C12.")
 ASSUMPTIONS = ["streams of <= 2 results (quick) / 4 (thorough) over <= 2 queries x <= 2 tracks; ids pairwise distinct",
-               "distances: None or a value of the exact grid {0,.25,.5,1,2,3,4,8} selected by a symbolic index (all float arithmetic folded exactly per value)", "max_distance: free f32 in [0,16]", "ties in weight accepted in either order",
+               "distances: None or a value of the exact grid {0,.25,.5,1,2,3,4,8} selected by a symbolic index (all float arithmetic folded exactly per value)", "max_distance from {0,.25,.375,.5,.75,1,1.5,2,2.5,3,3.5,4,6,8,16}: every order relation with the distance grid (equal to / between grid points)", "ties in weight accepted in either order",
                "HashMap iteration order: every permutation (nondeterministic); into_group_map keeps stream order inside a group (itertools contract)",
                "sort_by is a stable sort (std contract)"]
 OUTSIDE = ["longer streams / more ids", "float summation-order effects between permutations of a stream (weights are compared in stream order)"]
 
 F64 = z3.Float64()
 DGRID = [0.0, 0.25, 0.5, 1.0, 2.0, 3.0, 4.0, 8.0]
+MAXD = [0.0, 0.25, 0.375, 0.5, 0.75, 1.0, 1.5, 2.0, 2.5, 3.0, 3.5, 4.0, 6.0, 8.0, 16.0]
 
 
 def _stream(vm, nq, nt, nres):
@@ -95,8 +96,9 @@ def _mk_topn(nq, nt, nres):
         vm.assume(z3.ULE(topn.e, 3))
         minv = vm.fresh(64, 'min_votes')
         vm.assume(z3.ULE(minv.e, 3))
-        maxdist = vm.fresh('f32', 'max_distance')
-        vm.assume(fp_in(maxdist, 0.0, 16.0))
+        # every order relation with the distance grid is represented (equal to / between grid points); exact values so that
+        # a changed weight formula involving max_distance is decided as well
+        maxdist = grid_f32(vm, 'max_distance', MAXD)
         voting = Cell(mk(P, 'TopNVoting', topn=topn, max_distance=maxdist, min_votes=minv, _phony=()), 'voting')
         r = vm.exec_fn(fn, [Ref(voting), _items(P, stream)], {'T': 'Vec<ObservationMetricOk<OA>>'})
         O = Oracle(vm, qids, tids, stream, maxdist, minv)
@@ -138,8 +140,9 @@ def _mk_bestfit(nq, nt, nres):
         qids, tids, stream = _stream(vm, nq, nt, nres)
         minv = vm.fresh(64, 'min_votes')
         vm.assume(z3.ULE(minv.e, 3))
-        maxdist = vm.fresh('f32', 'max_distance')
-        vm.assume(fp_in(maxdist, 0.0, 16.0))
+        # every order relation with the distance grid is represented (equal to / between grid points); exact values so that
+        # a changed weight formula involving max_distance is decided as well
+        maxdist = grid_f32(vm, 'max_distance', MAXD)
         voting = Cell(mk(P, 'BestFitVoting', max_distance=maxdist, min_votes=minv, _phony=()), 'voting')
         r = vm.exec_fn(fn, [Ref(voting), _items(P, stream)], {'T': 'Vec<ObservationMetricOk<OA>>'})
         O = Oracle(vm, qids, tids, stream, maxdist, minv)
@@ -187,7 +190,7 @@ def _replay(cex, v, vm):
         except KeyError:
             d = "None"
         items.append("ObservationMetricOk::new(%du64, %du64, None, %s)" % (cex_get(cex, 'from%d' % k), cex_get(cex, 'to%d' % k), d))
-    common = dict(items=", ".join(items), maxd=rust_f32(cex_get(cex, 'max_distance')), minv=cex_get(cex, 'min_votes'))
+    common = dict(items=", ".join(items), maxd='%rf32' % grid_value(cex, vm, 'max_distance'), minv=cex_get(cex, 'min_votes'))
     if n['engine'] == 'topn':
         common['ctor'] = "TopNVoting::new(%d, %s, %d)" % (cex_get(cex, 'topn'), common['maxd'], common['minv'])
         common['topn'] = cex_get(cex, 'topn')
